@@ -59,3 +59,75 @@ fn k_c15_positions_before_sizing() {
     assert!(POSITIONED.load(Ordering::SeqCst) == n);
     kani::cover!(n == 3);
 }
+
+// ---- chains: a store may be SORTED on positions of another store (its order is only settled once that store's is).  Whatever the (acyclic)
+// ---- dependencies among up to three stores and whatever the order in which they were added, every store is settled before any store
+// ---- sizes its columns (defect F18: one positioning pass left a chain half settled, references were written truncated)
+static SETTLED: [AtomicU32; 3] = [AtomicU32::new(0), AtomicU32::new(0), AtomicU32::new(0)];
+struct ChainStore {
+    idx: usize,
+    total: usize,
+    // the store whose positions this store's sort key refers to
+    dep: Option<usize>,
+}
+impl EntryStoreTrait for ChainStore {
+    fn set_final_positions(&mut self) {
+        // an order computed from settled positions is settled; one computed from positions that will still move is not
+        let settled = match self.dep {
+            None => 1,
+            Some(d) => SETTLED[d].load(Ordering::SeqCst),
+        };
+        SETTLED[self.idx].store(settled, Ordering::SeqCst);
+    }
+    fn finalize(mut self: Box<Self>) -> Box<dyn WritableTell> {
+        self.set_final_positions();
+        // this store now sizes the columns that hold references: every store it may refer to must have its final order
+        let mut k = 0;
+        while k < self.total {
+            assert!(SETTLED[k].load(Ordering::SeqCst) == 1);
+            k += 1;
+        }
+        Box::new(MockFinal)
+    }
+}
+fn any_dep(me: usize, n: usize) -> Option<usize> {
+    if kani::any() {
+        let d: usize = kani::any();
+        kani::assume(d < n && d != me);
+        Some(d)
+    } else {
+        None
+    }
+}
+// oblig: C15.c.chains_settled_before_sizing kind=bounded(stores=3) timeout=900 tier=quick
+#[kani::proof]
+#[kani::unwind(6)]
+#[kani::stub(value_store::StoreHandle::finalize, vs_finalize_stub)]
+fn k_c15_chains_settled_before_sizing() {
+    let n: usize = 3;
+    let deps = [any_dep(0, n), any_dep(1, n), any_dep(2, n)];
+    // acyclic: no store depends (directly or through others) on itself
+    let mut i = 0;
+    while i < n {
+        let mut cur = deps[i];
+        let mut steps = 0;
+        while steps < 3 {
+            if let Some(c) = cur {
+                kani::assume(c != i);
+                cur = deps[c];
+            }
+            steps += 1;
+        }
+        i += 1;
+    }
+    let mut creator = DirectoryPackCreator::new(PackId::from(0u16), VendorId::from([0, 0, 0, 0]), Default::default());
+    let mut i = 0;
+    while i < n {
+        creator.add_entry_store(Box::new(ChainStore { idx: i, total: n, dep: deps[i] }));
+        i += 1;
+    }
+    let fin = creator.finalize();
+    assert!(fin.is_ok());
+    // a chain of two dependencies, against the order of insertion
+    kani::cover!(n == 3 && deps[0] == Some(1) && deps[1] == Some(2));
+}
